@@ -221,6 +221,13 @@ func rewriteFile(fs *fileState) {
 				fs.add(s, e, false, func() string { return "simrt.ReadFile" })
 				rep.Edits["R4 ReadFile"]++
 				needSimrt = true
+			case path == "context" && (name == "Context" || name == "CancelFunc" || name == "Background" || name == "TODO" || name == "WithCancel" ||
+				name == "WithTimeout" || name == "WithDeadline" || name == "WithValue"):
+				s, e := fs.off(x.Pos()), fs.off(x.End())
+				nm := name
+				fs.add(s, e, false, func() string { return "simrt." + nm })
+				rep.Edits["R10 context."+name]++
+				needSimrt = true
 			case path == "sync" && (name == "Cond" || name == "NewCond"):
 				s, e := fs.off(x.Pos()), fs.off(x.End())
 				nm := name
@@ -358,7 +365,7 @@ func rewriteFile(fs *fileState) {
 	// Imports: add simrt, blank the ones that lost their last use.
 	for _, imp := range fs.file.Imports {
 		path := strings.Trim(imp.Path.Value, "\"")
-		if (path == "sync" || path == "os" || path == "io/ioutil" || path == "time" || path == "runtime") && usesLeft[path] == 0 && imp.Name == nil {
+		if (path == "sync" || path == "os" || path == "io/ioutil" || path == "time" || path == "runtime" || path == "context") && usesLeft[path] == 0 && imp.Name == nil {
 			s := fs.off(imp.Path.Pos())
 			fs.add(s, s, false, func() string { return "_ " })
 		}
